@@ -30,4 +30,15 @@ func TestCheckHandoffScheduler(t *testing.T) {
 		func(t *rapid.T) *sim.World { return sim.GenHandoffWorld(t, profile()) }, sim.JudgeHandoff)
 }
 
-func TestReplay(t *testing.T) { sim.ReplayProperty(t, sim.JudgeHandoff, 5) }
+// TestReplay re-executes a saved case: binder-half cases ("binderCase": true, c12_binder_test.go) through
+// ReplayBinder, everything else through the scheduler half's judge.
+func TestReplay(t *testing.T) {
+	if IsBinderReplayFile(kit.GetEnv().Replay) {
+		kit.ReplayMain(t, func(rf *kit.ReplayFile) kit.ReplayResult {
+			res, _ := ReplayBinder(rf)
+			return res
+		})
+		return
+	}
+	sim.ReplayProperty(t, sim.JudgeHandoff, 5)
+}
